@@ -1,5 +1,6 @@
 """C10 — Diff output transforms the old config into the new; rollback is its mirror (partial claim)."""
 import contextlib
+import shutil
 import io
 import os
 import re
@@ -25,7 +26,7 @@ RULE = ("stream neutral: pairs of indentation-style configs built as random tree
         "option list matches any path of either tree or its negation). The real get_diff()/get_rollback() output is read back into commands inside Coq and "
         "(1) checked against the property clauses themselves and (2) compared as a command set with the model. non-trivial = non-empty diff; distinct by (old,new,syntax). "
         "stream device: configs WITH option-triggering lines (idempotent commands, sectional exiting/overwrite, ACLs, banners, negated lines, duplicate children): "
-        "only the device-independent clauses (all input forms and the CLI print the same diff/rollback, rollback(old,new)=diff(new,old), diff(x,x)=[]).")
+        "only the device-independent clauses (all input forms and the CLI print the same diff/rollback, rollback(old,new)=diff(new,old), diff(x,x)=[]). File-form inputs are written to a path that is the same for every case run by one worker process (contents rewritten from case to case).")
 EXHAUSTIVE = {"quick": False, "thorough": False}
 TRUSTED = [
     "Coq 8.16.1 kernel incl. vm_compute",
@@ -298,6 +299,18 @@ def _mk_arg(f, tmpdir, name):
     return p
 
 
+@contextlib.contextmanager
+def _pid_dir(prefix):
+    """A scratch directory whose PATH is the same for every case run by this worker process (the files are rewritten
+    with different contents from case to case): a result must depend on what the file holds now, not on its path."""
+    d = os.path.join(tempfile.gettempdir(), "%s%d" % (prefix, os.getpid()))
+    os.makedirs(d, exist_ok=True)
+    try:
+        yield d
+    finally:
+        shutil.rmtree(d, ignore_errors=True)
+
+
 def _str_is_file(f):
     return f["form"] == "str" and len(f["text"].splitlines()) == 1 and os.path.isfile(f["text"])
 
@@ -306,7 +319,7 @@ def run_neutral(case):
     from ciscoconfparse2.ciscoconfparse2 import Diff
     if _str_is_file(case["old"]) or _str_is_file(case["new"]) or not neutral(form_text(case["old"]), form_text(case["new"]), case["syntax"]):
         return {"neutral": False}
-    with tempfile.TemporaryDirectory(prefix="c10_") as td:
+    with _pid_dir("c10_") as td:
         try:
             d = Diff(_mk_arg(case["old"], td, "old.cfg"), _mk_arg(case["new"], td, "new.cfg"), syntax=case["syntax"])
             return {"neutral": True, "diff": list(d.get_diff()), "rollback": list(d.get_rollback())}
@@ -435,7 +448,7 @@ def run_device(case):
     from ciscoconfparse2.ciscoconfparse2 import Diff
     old, new, syn = case["old"], case["new"], case["syntax"]
     ds, rs = [], []
-    with tempfile.TemporaryDirectory(prefix="c10d_") as td:
+    with _pid_dir("c10d_") as td:
         fo, fn = os.path.join(td, "old.cfg"), os.path.join(td, "new.cfg")
         with open(fo, "w") as fh:
             fh.write("\n".join(old))
